@@ -18,8 +18,7 @@ For every requested module the translator emits, in its own Lean namespace,
                    the bodies of all clocked `always` blocks, executed once with the given
                    input values (non-blocking: every right-hand side reads the OLD registers).
                    The reset arm is `ff` with the reset input high, the clocked arm `ff` with
-                   it low; both specialisations are emitted as `ffReset`/`ffClock` when the
-                   module has inputs called i_rst.
+                   it low (Rtl/Sem.lean: `resetEdge`, `cycle`).
   def sens         the (edge, signal) sensitivity list shared by all clocked blocks
   def outputs      names of the output ports (documentation)
 
@@ -159,6 +158,24 @@ IGNORED_IN_INITIAL = {"display", "sformatf", "time", "dumpctl", "testplusargs", 
                       "neq", "eq", "finish", "stop"}
 
 
+KNOWN_TAGS = {
+    # statements
+    "always", "sentree", "senitem", "begin", "if", "case", "caseitem", "assign", "assigndly", "contassign",
+    # expressions
+    "varref", "const", "add", "sub", "and", "or", "xor", "mul", "logand", "logor", "not", "negate", "lognot",
+    "eq", "neq", "eqcase", "neqcase", "eqwild", "neqwild", "lt", "lte", "gt", "gte", "lts", "ltes", "gts", "gtes",
+    "redor", "redand", "extend", "extends", "concat", "replicate", "shiftl", "shiftr", "shiftrs", "sel", "cond",
+    "arraysel", "funcref", "arg",
+}
+
+
+def prescan(node):
+    """Refuse any construct outside the vocabulary before anything else looks at the block."""
+    for e in node.iter():
+        if e.tag not in KNOWN_TAGS:
+            refuse(f"<{e.tag}> (construct outside the translator's vocabulary)", e)
+
+
 class Block:
     """A combinational block (continuous assign, always_comb, port connection, initial constant)."""
 
@@ -232,6 +249,8 @@ class Elab:
             tag = ch.tag
             if tag in ("var", "func", "typedef"):
                 continue
+            if tag in ("contassign", "always"):
+                prescan(ch)
             if tag == "contassign":
                 self.comb_blocks.append(Block("assign", sc, ch, [ch], f"assign {self.lhs_name(ch, sc)}"))
             elif tag == "always":
@@ -994,8 +1013,10 @@ def translate_xml(xmlpath, ns, emits, flat, srcs, ver):
 
 def run_verilator(files, top, workdir, lenient):
     cmd = ["verilator", "--xml-only", "-O0", "--top-module", top, "-Mdir", workdir]
+    # lint warnings never stop the translation (the AST is width-resolved either way); errors do
+    cmd += ["-Wno-fatal"]
     if lenient:
-        cmd += ["-Wno-WIDTH", "-Wno-fatal"]
+        cmd += ["-Wno-WIDTH"]
     cmd += files
     r = subprocess.run(cmd, stdout=subprocess.PIPE, stderr=subprocess.STDOUT, text=True)
     if r.returncode != 0:
